@@ -562,8 +562,13 @@ func scenarios(cfg *mc.Config, emit func(mc.Scenario)) {
 	if thorough {
 		b = 2
 	}
-	for si, sc := range scripts {
+	// (the last script: single very large writes, default chunking only)
+	for si, sc := range append(append([][2][]int{}, scripts...), [2][]int{{65536, 65537}, {200000, 1}}) {
 		si, sc := si, sc
+		b := b
+		if total(sc[0]) > 100000 {
+			b = 0
+		}
 		emit(mc.Scenario{Name: fmt.Sprintf("real-real/script%d", si), Bound: b, Weight: 300, Run: func(c *mc.Ctx) {
 			rnd.Install(rnd.New(seed, "c13-rr"))
 			cw, sw := wire.Pipe("client", "server")
